@@ -93,5 +93,8 @@ def _install_module(name, module):
         parent_module.__path__ = []
         _install_module(parent_name, parent_module)
 
-    setattr(parent_module, child_name, module)
+    # (The parent can be a grammar with a rule of that name: leave it alone.)
+    if isinstance(getattr(parent_module, child_name, module), types.ModuleType):
+        setattr(parent_module, child_name, module)
+
     sys.modules[name] = module
